@@ -95,6 +95,18 @@ def generate(outdir, seed, npools, nversions):
             o = tg.table([(t, 1, True), (tg.prim("u16"), 2, True)], nm + "_O", ("hash", 4242))                  # table inside an entry of another table
             types += [t, s, v, o]
             meta.append((pi, vi, nm, [(pool[e]["id"], a, act, pool[e]["alts"][0].cpp) for (e, a, act) in ver]))
+    # a wide pool: definitions with more than 64 entries (per-entry bookkeeping in a machine word stops working at 32 / 64), in several orders
+    P = tg.prim; pi = len(pools)
+    wpool = [{"id": (i + 1) if i < 70 else [300, 65536][i - 70], "alts": [[P("u8"), P("string"), P("i16"), P("u32")][i % 4]]} for i in range(72)]
+    order = list(range(72)); rev = order[::-1]; shuf = order[:]; rng.shuffle(shuf)
+    wversions = [[(e, 0, True) for e in order[:66]], [(e, 0, True) for e in rev], [(e, 0, (k % 9) != 4) for k, e in enumerate(shuf[:68])], [(e, 0, True) for e in order[30:72]]]
+    for vi, ver in enumerate(wversions):
+        ents = [(wpool[e]["alts"][a], wpool[e]["id"], act) for (e, a, act) in ver]
+        nm = "P%dV%d" % (pi, vi)
+        t = tg.table(ents, nm, ("ns", "verif.widepool"))
+        s = tg.struct([tg.Member(t), tg.Member(tg.prim("u32"))], nm + "_S"); v = tg.vec(t); o = tg.table([(t, 1, True), (tg.prim("u16"), 2, True)], nm + "_O", ("hash", 4242))
+        types += [t, s, v, o]
+        meta.append((pi, vi, nm, [(wpool[e]["id"], a, act, wpool[e]["alts"][0].cpp) for (e, a, act) in ver]))
     srcs = tg.emit_tus(outdir, types, per_tu=8, prefix="tables")
     # constraint schema per pool entry: values of an entry are generated on the most constrained alternative
     L = ["// generated by gen/tablegen.py seed=%d" % seed, '#include "tables_decls.h"', '#include "engines/table/poolinfo.h"', "namespace vf {", "std::vector<PoolVersion> pool_versions() {", "  std::vector<PoolVersion> v;"]
